@@ -14,7 +14,7 @@ import (
 func init() {
 	register("C15", &propDef{
 		Level:   "other",
-		Explain: "Decided: where reported offsets come from and whether the text they index can differ from the caller's string. O1 every offset-bearing message (constant format containing 'offset %d') prints the scanner's position in the caller's string: the cursor plus the compensation field, with no other arithmetic; O2 buffer stability: the scan buffer is either never rewritten, or every rewrite adds exactly len(old) - len(new) to the compensation field in the same block; O3 the lexeme cited by a message is the text read from the position that is restored before the message is built; O4 the position lies in the string: 0 <= cursor <= len(buffer) and compensation >= 0 are inductive (Houdini-checked linear invariants). Not decided: nothing arithmetic beyond these linear facts is needed once O2 holds.",
+		Explain: "Decided: where reported offsets come from and whether the text they index can differ from the caller's string. O1 every offset-bearing message (constant format containing 'offset %d') prints the scanner's position in the caller's string: the cursor plus the compensation field, with no other arithmetic; O2 buffer stability: the scan buffer is either never rewritten, or every rewrite adds exactly len(old) - len(new) to the compensation field in the same block; O3 the lexeme cited by a message is the text read from the position that is restored before the message is built; O4 the position lies in the string: 0 <= cursor <= len(buffer) and compensation >= 0 are inductive (Houdini-checked linear invariants). O5 text identity: the buffer is initialised with the caller's own string, handed down unchanged on every call chain from the API; O6 error origin: every error an API function returns was constructed in this call (nil or errors.New/fmt.Errorf), never read back from package-level state or a container. Not decided: nothing arithmetic beyond these linear facts is needed once O2 holds.",
 		Run:     rulesC15,
 		Trusted: []string{"go/ssa lowering", "fmt.Sprintf prints its operands in order"},
 	})
@@ -182,6 +182,7 @@ func rulesC15(p *Prog, r *Report) {
 	if n == 0 {
 		r.Unknown("O1", "messages", "-", "kind=undecided: no offset-bearing message found")
 	}
+	rulesC15b(p, r, esT, buffer)
 }
 
 // sprintfOperands: the values boxed into the variadic slice of a Sprintf call, in order.
